@@ -57,6 +57,7 @@ class Context:
         """
         if self._alt is None and self._enable_alt:
             self._alt = Context(paths=self._paths, enable_alt=False, default_constant_type=self._default_constant_type)
+            self._alt._is_alt = True
         return self._alt
 
     @property
